@@ -91,6 +91,9 @@ void Scheduler::RunLoop() {
       AdvanceTime();
     }
     WakeUpNeeded();
+    if (_queue.Empty()) {
+      continue;
+    }
     auto* next = GetNext();
     sCurrent = next;
 #ifdef YACLIB_VERIF
@@ -133,13 +136,9 @@ void Scheduler::Sleep(std::uint64_t ns) {
 void Scheduler::SleepPreemptive(std::uint64_t ns) {
   ns += detail::GetRandNumber(GetFaultSleepTime());
   Sleep(ns);
-  // <= because wakeup called before time adjustment
-  if (_time <= ns) {
-    auto it = _sleep_list.find(ns);
-    YACLIB_DEBUG(it == _sleep_list.end(), "sleep_list for time that is not passed yet isn't found");
-    if (it->second.Empty()) {
-      _sleep_list.erase(ns);
-    }
+  // a notify may have removed this fiber from its bucket: drop the bucket if that left it empty
+  if (auto it = _sleep_list.find(ns); it != _sleep_list.end() && it->second.Empty()) {
+    _sleep_list.erase(it);
   }
 }
 
